@@ -42,6 +42,10 @@ def precreate_outputs(writer, d):
 BIG_WRITERS = ("extract_chans_big", "extract_bands_big")   # products above 1 MiB: size-dependent writer paths (pre-allocation etc.)
 
 
+MANY_WRITERS = ("extract_chans_many",)   # several hundred products open side by side in one batch (one writer per product alive at a time)
+MANY_NCH, MANY_N = 260, 40
+
+
 ZERO_TAIL_WRITERS = ("mask_zero_tail", "extract_samps_zero_tail")   # the last blocks of the product are all zero (blanked end of a recording)
 ZT_N, ZT_NCH = 3072, 16
 
@@ -83,6 +87,12 @@ def run_writer(writer, d, gulp, nbits=8, seed=0, preexisting=False):
             return [filz.apply_channel_mask(np.zeros(ZT_NCH, dtype=bool), 0, outz, gulp=512, quiet=True, description="v")]
         return [filz.extract_samps(0, ZT_N, outz, gulp=512, quiet=True, description="v")]
 
+    if writer in MANY_WRITERS:
+        rng = np.random.default_rng([seed, 78])
+        Xm = rng.integers(1, 200, size=(MANY_N, MANY_NCH)).astype(np.uint8)
+        pm = os.path.join(d, "in.fil")
+        sigfile.write_fil(pm, Xm, 8, fch1=1500.0, foff=-0.5, tsamp=1e-3)
+        return list(FilReader(pm).extract_chans(list(range(MANY_NCH)), os.path.join(d, "oc"), batch_size=MANY_NCH, gulp=10, quiet=True, description="v"))
     if writer in BIG_WRITERS:
         rng = np.random.default_rng([seed, 77])
         nb = 270000
